@@ -56,7 +56,7 @@ func writeEvidence(pr *props.Property, tier string, seed uint64, a *agg, planned
 		"distinct_interleavings":       len(a.shapes),
 		"distinct_interleaving_rule":   "distinct (digest of fired (yield site, hit, ns) stall decisions, time-free delivery shape) pairs",
 		"distinct_stall_schedules":     len(a.scheds),
-		"determinism_spot_check":       map[string]int{"plans": detPlans, "executions": detPlans * 2, "mismatches": detMismatch},
+		"determinism_spot_check":       map[string]any{"plans": detPlans, "mismatches": detMismatch, "how": "each sampled plan re-executed from a plan file in a fresh process (the replay path); history digest compared with the one the search observed"},
 		"input_enumeration":            enums,
 		"input_enumeration_cases":      enumTotal,
 		"input_enumeration_note":       "pure-input side runs: no schedule, clock or fault in them; not counted as simulated runs",
